@@ -3,6 +3,9 @@
 // sequence number; every record carries the logical thread tag and whether the calling thread is
 // the dispatcher (pump worker).  Part of the trusted base of every C++ check.
 #pragma once
+#ifndef VMON_REAL_MUTEX
+#define VMON_REAL_MUTEX std::mutex
+#endif
 #include <atomic>
 #include <condition_variable>
 #include <cstdio>
@@ -17,7 +20,7 @@
 
 namespace vmon {
 
-inline std::mutex& mtx() { static std::mutex m; return m; }
+inline VMON_REAL_MUTEX& mtx() { static VMON_REAL_MUTEX m; return m; }
 inline std::vector<std::string>& lines() { static std::vector<std::string> v; return v; }
 inline std::atomic<long long>& seq() { static std::atomic<long long> s{0}; return s; }
 inline std::atomic<long long>& idgen() { static std::atomic<long long> s{1000}; return s; }
@@ -47,7 +50,7 @@ struct J {
 };
 
 inline void log(const std::string& kind, J& j) {
-    std::lock_guard<std::mutex> g(mtx());
+    std::lock_guard<VMON_REAL_MUTEX> g(mtx());
     long long n = ++seq();
     std::ostringstream os;
     os << "{\"seq\":" << n << ",\"kind\":\"" << kind << "\",\"disp\":" << (in_dispatcher ? "true" : "false")
@@ -57,7 +60,7 @@ inline void log(const std::string& kind, J& j) {
 inline void log(const std::string& kind) { J j; log(kind, j); }
 
 inline void dump(const char* path) {
-    std::lock_guard<std::mutex> g(mtx());
+    std::lock_guard<VMON_REAL_MUTEX> g(mtx());
     FILE* f = path ? std::fopen(path, "w") : stdout;
     if (!f) return;
     for (auto& l : lines()) { std::fputs(l.c_str(), f); std::fputc('\n', f); }
@@ -66,13 +69,13 @@ inline void dump(const char* path) {
 
 // ---- gate: while closed, pump workers queue but do not run tasks -------------------------
 struct Gate {
-    std::mutex m;
+    VMON_REAL_MUTEX m;
     std::condition_variable cv;
     bool closed = false;
-    void close() { std::lock_guard<std::mutex> g(m); closed = true; }
-    void open() { { std::lock_guard<std::mutex> g(m); closed = false; } cv.notify_all(); }
-    bool is_closed() { std::lock_guard<std::mutex> g(m); return closed; }
-    void pass() { std::unique_lock<std::mutex> l(m); cv.wait(l, [this] { return !closed; }); }
+    void close() { std::lock_guard<VMON_REAL_MUTEX> g(m); closed = true; }
+    void open() { { std::lock_guard<VMON_REAL_MUTEX> g(m); closed = false; } cv.notify_all(); }
+    bool is_closed() { std::lock_guard<VMON_REAL_MUTEX> g(m); return closed; }
+    void pass() { std::unique_lock<VMON_REAL_MUTEX> l(m); cv.wait(l, [this] { return !closed; }); }
 };
 inline Gate& gate() { static Gate g; return g; }
 
@@ -83,7 +86,7 @@ inline std::map<std::string, void*>& registry() { static std::map<std::string, v
 inline std::map<std::string, std::vector<long long>>& replies() {
     static std::map<std::string, std::vector<long long>> r; return r; }
 inline long long next_reply(const std::string& key, long long dflt) {
-    std::lock_guard<std::mutex> g(mtx());
+    std::lock_guard<VMON_REAL_MUTEX> g(mtx());
     auto it = replies().find(key);
     if (it == replies().end() || it->second.empty()) return dflt;
     long long v = it->second.front();
@@ -91,7 +94,7 @@ inline long long next_reply(const std::string& key, long long dflt) {
     return v;
 }
 inline void push_reply(const std::string& key, long long v) {
-    std::lock_guard<std::mutex> g(mtx());
+    std::lock_guard<VMON_REAL_MUTEX> g(mtx());
     replies()[key].push_back(v);
 }
 
